@@ -144,7 +144,7 @@ _p("C05", modules=["framing", "main_run"], level="other",
    assumptions=[], trusted_base=["list.sort (stable, total order by key)"], bounded=BOUNDED_FRAMING, not_under_contract=["main.run's skip of empty segments (run() contract)"])
 
 
-_p("C09", modules=["keylog", "main_run"], level="other",
+_p("C09", modules=["keylog", "main_run", "demux"], level="other",
    technique="contract-based deductive verification: regular-language inclusion (z3 re theory) for the key-log pattern, VCs for the parsers and run()'s DSB/-s branches",
    level_text="Proved: every line of the NSS key-log grammar (nine labels, upper- or lower-case hex) is accepted by the REAL pattern and yields exactly its three fields "
               "(language inclusion oracle <= pattern, decided by z3); any other line is rejected or parsed without exception; get_keys_from_string returns the keys of "
@@ -188,3 +188,35 @@ _p("C04", modules=["demux", "ports", "keylog", "framing"], level="other",
    explanation="Routing and isolation obligations discharged per function; the lifting to 'union of per-connection outputs' is the paper fold invariant delivered(S) = subsequence of the capture with S's identity.",
    assumptions=[], trusted_base=[], bounded=BOUNDED_FRAMING, composition_assumptions=["fold invariant over the capture (DESIGN 4 C04)"],
    not_under_contract=["QuicSession.handle_packet's own CID learning (C02)"])
+
+
+_p("C15", modules=["keys"], level="proof",
+   technique="contract-based deductive verification with the cryptographic primitives as uninterpreted functions; per parameter class all PRF loops unroll completely",
+   level_text="For all secrets and randoms (symbolic) and every parameter class (12 cipher classes x MAC/PRF hashes; 18 representative suites x valid versions x key-log "
+              "label for the installed state): the real key_derivator functions return exactly the RFC 6101 / 2246 / 5246 / 8446 schedules (master secret, key block, "
+              "partition with the suite's MAC, key and IV lengths, HKDF-Expand-Label with 'key'/'iv'); Session.generate_keys installs them in the connection's Decryptor "
+              "(CLIENT_RANDOM and RSA lines, TLS 1.3 handshake keys first, update_keys switches exactly one direction); quic_key_generation returns the RFC 9001 "
+              "Initial / handshake / 0-RTT / 1-RTT / hp / key-update values (HkdfLabel encoding included) and QuicSession installs them in the positions QuicDecryptor "
+              "reads, the Initial keys once and for all. The RFC side is written from the RFC text with the same uninterpreted primitives.",
+   level_note="proof modulo: hash/HMAC/HKDF are uninterpreted (that `cryptography` implements them is assumed); equality of key material is structural equality of byte terms; "
+              "the installed-state harness runs 18 representative suites in the quick tier (all parameter classes) and every table entry in the thorough tier; "
+              "QUIC v2 labels and QuicSession.check_key_epoch's epoch bookkeeping are not under contract",
+   design_ref="DESIGN.md 4 C15", explanation="",
+   assumptions=["cryptography's Hash/HMAC/HKDFExpand/HKDF._extract are functions of their inputs only"],
+   trusted_base=["cryptography.hazmat.primitives (hashes, hmac, kdf.hkdf)"],
+   not_under_contract=["QuicSession.check_key_epoch (epoch counting)", "QUIC v2 label set"])
+
+_p("C03", modules=["robustness", "demux", "quic_output", "main_run"], level="other",
+   technique="contract-based deductive verification: exception freedom for arbitrary bytes / states with library calls allowed to fail; routing + frame obligations for isolation",
+   level_text="Proved: for ANY TLS record (>= its 5 header bytes), ANY session flag state, ANY version state and a decryptor that fails or returns arbitrary bytes, the "
+              "record reaches handle_tls_record through get_tls_records without an exception leaving get_tls_records (all nine record handlers executed from their real "
+              "ASTs, the two parsing loops cut at invariants with variants); without a decryptor an application-data record adds nothing to the export (the gate) and "
+              "only (decryptor output, the record, its direction) is ever exported; main.handle_quic_packet raises nothing for any non-empty UDP payload; a DSB's text "
+              "never reaches the packet parser; a QUIC session without output contributes nothing; isolation = C04's routing and frame obligations.",
+   level_note="level 'other': NOT covered - exception freedom inside QuicSession.handle_packet / extract_quic_packet / decrypt_packet (struct-based dissector not under contract; "
+              "it relies on its own blanket try/except), Session.generate_keys for malformed key-log values (odd-length hex), and the 'at most a prefix of the true plaintext' "
+              "clause, which is a statement about AEAD/CBC under wrong keys",
+   design_ref="DESIGN.md 4 C03",
+   explanation="The TLS record path and the UDP entry point are proved exception-free for all inputs; the QUIC dissector path and key-derivation failures are listed as not under contract.",
+   assumptions=["every library call may raise on any input (cryptography, dpkt)"], trusted_base=[],
+   not_under_contract=["tlexport.quic.quic_dissector.extract_quic_packet", "QuicSession.handle_packet/handle_quic_packet/decrypt_packet", "Session.generate_keys exception freedom"])
